@@ -4,6 +4,7 @@ package main
 
 import (
 	"fmt"
+	"kverif/internal/norm"
 	"os"
 	"os/exec"
 	"path/filepath"
@@ -71,6 +72,21 @@ func main() {
 				controlPatch = args[i+1]
 				i++
 			}
+		case "--genknown":
+			// writes the reference function list from the current tree (run on the reference tree only)
+			p, err := load.Load(repo, nil, nil)
+			if err != nil {
+				fmt.Println(err)
+				os.Exit(2)
+			}
+			keys := norm.DeclaredFuncs(p.Pkgs)
+			os.MkdirAll(filepath.Join(home, "reference"), 0o755)
+			if err := os.WriteFile(filepath.Join(home, "reference", "known_funcs.txt"), []byte(strings.Join(keys, "\n")+"\n"), 0o644); err != nil {
+				fmt.Println(err)
+				os.Exit(2)
+			}
+			fmt.Printf("%d functions written\n", len(keys))
+			os.Exit(0)
 		case "--list":
 			var ids []string
 			for id := range rules.Registry {
@@ -98,7 +114,7 @@ func main() {
 		os.Exit(runControl(repo, home, prop, controlPatch, fn))
 	}
 	run := report.NewRun(prop, tier, seed)
-	p, err := load.Load(repo, nil, nil)
+	p, err := load.LoadNormalized(repo, nil, nil, filepath.Join(home, "reference", "known_funcs.txt"))
 	if err != nil {
 		// no verdict possible: this is a failure of the check, reported as undecided
 		run.Unknown("LOAD", "go/packages", "", err.Error())
@@ -124,6 +140,16 @@ func main() {
 		"packages_loaded":       len(p.Pkgs),
 		"load_s":                p.LoadTime.Seconds(),
 		"tolerated_load_errors": p.Tolerated,
+		"normalisation": map[string]any{
+			"how":               "functions that do not exist on the reference tree (reference/known_funcs.txt) are inlined at source level into their in-package callers before the rules run (go/packages overlay; nothing written, nothing executed); on the reference tree the list below is empty and the step is a no-op",
+			"unknown_functions": p.NewFuncs,
+			"inlined_calls":     p.Inlined,
+			"calls_left_alone":  p.Skipped,
+			"notes":             p.Notes,
+		},
+	}
+	if len(p.NewFuncs) > 0 {
+		fmt.Printf("normalisation: %d function(s) unknown on the reference tree, %d call(s) inlined, %d left alone\n", len(p.NewFuncs), len(p.Inlined), len(p.Skipped))
 	}
 	for k, v := range extra2 {
 		extra[k] = v
@@ -139,7 +165,7 @@ func runControl(repo, home, prop, patch string, fn func(*rules.Ctx)) int {
 		fmt.Printf("CONTROL stale patch=%s reason=%v\n", patch, err)
 		return 4
 	}
-	p, err := load.Load(repo, nil, overlay)
+	p, err := load.LoadNormalized(repo, nil, overlay, filepath.Join(home, "reference", "known_funcs.txt"))
 	if err != nil {
 		fmt.Printf("CONTROL stale patch=%s reason=load: %v\n", patch, err)
 		return 4
